@@ -550,8 +550,12 @@ func (s *scanningState) scan(line []byte) (bool, error) {
 					s.Goroutines = make([]*Goroutine, 0, 4)
 				}
 				s.Goroutines = append(s.Goroutines, g)
+				if s.state == looking {
+					// The indentation is the one of the first goroutine header; the
+					// following lines had it trimmed already.
+					s.prefix = append([]byte{}, match[1]...)
+				}
 				s.state = gotRoutineHeader
-				s.prefix = append([]byte{}, match[1]...)
 				return true, nil
 			}
 		}
